@@ -1,0 +1,165 @@
+//! Queries that would need a deeply nested plan are refused with an error.
+//!
+//! The binder, optimizer, planner and executor walk the plan recursively, so a plan
+//! with thousands of stacked operators used to overflow the stack and abort the
+//! process. The test harness runs each test on a thread with a 2 MiB stack, which is
+//! the stack these queries have to be answered on.
+
+use grafeo_engine::GrafeoDB;
+
+fn db() -> GrafeoDB {
+    let db = GrafeoDB::new_in_memory();
+    let session = db.session();
+    session.create_node(&["Person"]);
+    session.create_node(&["Person"]);
+    db
+}
+
+fn assert_too_complex<T: std::fmt::Debug>(result: grafeo_common::utils::error::Result<T>) {
+    let err = result.expect_err("a plan nested this deeply must be refused");
+    let message = err.to_string();
+    assert!(
+        message.contains("too complex") || message.contains("too many"),
+        "unexpected error: {}",
+        message.lines().next().unwrap_or_default()
+    );
+}
+
+#[cfg(feature = "gql")]
+#[test]
+fn gql_long_clause_chains() {
+    let db = db();
+    let session = db.session();
+
+    // Well within the limit
+    let query = format!("MATCH (a) {}RETURN a", "WITH a ".repeat(100));
+    assert_eq!(session.execute(&query).unwrap().row_count(), 2);
+
+    for query in [
+        format!("MATCH (a) {}RETURN a", "WITH a ".repeat(1500)),
+        format!(
+            "{}RETURN x0",
+            (0..1500)
+                .map(|i| format!("UNWIND [1] AS x{i} "))
+                .collect::<String>()
+        ),
+        format!("MATCH (a){} RETURN a", "-[:KNOWS]->()".repeat(900)),
+        format!(
+            "MATCH (a) SET {} RETURN a",
+            (0..1500)
+                .map(|i| format!("a.p{i} = 1"))
+                .collect::<Vec<_>>()
+                .join(", ")
+        ),
+        format!(
+            "MATCH (a {{{}}}) RETURN a",
+            (0..1500)
+                .map(|i| format!("p{i}: 1"))
+                .collect::<Vec<_>>()
+                .join(", ")
+        ),
+    ] {
+        assert_too_complex(session.execute(&query));
+    }
+}
+
+#[cfg(feature = "cypher")]
+#[test]
+fn cypher_long_clause_chains() {
+    let db = db();
+    let session = db.session();
+
+    let query = format!("MATCH (a) {}RETURN a", "WITH a ".repeat(100));
+    assert_eq!(session.execute_cypher(&query).unwrap().row_count(), 2);
+
+    for query in [
+        format!("MATCH (a) {}RETURN a", "WITH a ".repeat(1500)),
+        format!("MATCH (a) RETURN a {}", "ORDER BY a.x ".repeat(1500)),
+        format!("CREATE {}", vec!["(:L)"; 1500].join(", ")),
+        format!("MATCH (a){} RETURN a", "-[:KNOWS]->()".repeat(900)),
+    ] {
+        assert_too_complex(session.execute_cypher(&query));
+    }
+}
+
+#[cfg(feature = "gremlin")]
+#[test]
+fn gremlin_long_step_chains() {
+    let db = db();
+    let session = db.session();
+
+    let query = format!("g.V(){}", ".dedup()".repeat(100));
+    assert_eq!(session.execute_gremlin(&query).unwrap().row_count(), 2);
+
+    for step in [".out()", ".dedup()", ".values('name')", ".has('age', 30)"] {
+        let query = format!("g.V(){}", step.repeat(1500));
+        assert_too_complex(session.execute_gremlin(&query));
+    }
+}
+
+#[cfg(feature = "graphql")]
+#[test]
+fn graphql_wide_arguments_and_selections() {
+    let db = db();
+    let session = db.session();
+
+    assert!(
+        session
+            .execute_graphql("{ person(age: 1) { name } }")
+            .is_ok()
+    );
+
+    for query in [
+        format!(
+            "{{ person({}) {{ name }} }}",
+            (0..1500)
+                .map(|i| format!("p{i}: 1"))
+                .collect::<Vec<_>>()
+                .join(", ")
+        ),
+        format!(
+            "{{ person(where: {{{}}}) {{ name }} }}",
+            (0..1500)
+                .map(|i| format!("p{i}: 1"))
+                .collect::<Vec<_>>()
+                .join(", ")
+        ),
+        format!(
+            "{{ person {{ {} }} }}",
+            (0..1500)
+                .map(|i| format!("k{i}: knows {{ name }} "))
+                .collect::<String>()
+        ),
+    ] {
+        assert_too_complex(session.execute_graphql(&query));
+    }
+}
+
+#[cfg(all(feature = "sparql", feature = "rdf"))]
+#[test]
+fn sparql_long_pattern_chains() {
+    let db = db();
+    let session = db.session();
+
+    let query = format!("SELECT * WHERE {{ {} }}", "?s ?p ?o . ".repeat(50));
+    assert!(session.execute_sparql(&query).is_ok());
+
+    for query in [
+        format!(
+            "SELECT * WHERE {{ {} }}",
+            (0..1500)
+                .map(|i| format!("?s{i} <http://ex/p> ?s{} . ", i + 1))
+                .collect::<String>()
+        ),
+        format!(
+            "SELECT * WHERE {{ ?s ?p ?o {} }}",
+            "FILTER(true) ".repeat(1500)
+        ),
+        format!(
+            "SELECT * WHERE {{ ?s ?p ?o {} }}",
+            "OPTIONAL { ?s ?p ?o } ".repeat(900)
+        ),
+    ] {
+        assert_too_complex(session.execute_sparql(&query));
+    }
+}
